@@ -17,10 +17,12 @@ Single(bodies, input, warnerr) == [bodies |-> bodies, threads |-> <<[main |-> 1,
 \*      t  = product of own^eo * (enclosing variables in the chosen subset)     (constant 2 if the product is empty)
 \*      d  = diff(mode_{k+1}, body k+2, at, seed = 1)                            (if k < depth)
 \*      ret  t (+|*) d
-\* `at` is the own variable or own + variable of the enclosing level (an inner point that depends on an outer variable).
+\* `at` is the own variable, own + variable of the enclosing level (an inner point that depends on an outer variable),
+\* or the constant 3 (the inner differentiation is then connected to the outer one only through its closure).
 \* The choice for a level: [eo \in 0..2, outs \subseteq enclosing levels, at \in {"own","sum"}, comb \in {"add","mul"}]
 LevelChoices(k, depth) ==
-  [eo : 0..2, outs : SUBSET (1..(k-1)), at : IF k < depth /\ k > 1 THEN {"own", "sum"} ELSE {"own"},
+  [eo : 0..2, outs : SUBSET (1..(k-1)), at : IF k < depth /\ k > 1 THEN {"own", "sum", "const"}
+                                             ELSE IF k < depth THEN {"own", "const"} ELSE {"own"},
    comb : IF k < depth THEN {"add", "mul"} ELSE {"add"}]
 
 \* instruction list for the product term; returns [ins, reg] with reg = register holding the term (0 = constant 2)
@@ -40,7 +42,7 @@ LevelBody(k, depth, ch, modeNext) ==
   LET t == TermIns(k, ch) IN
   IF k = depth THEN t.ins \o <<Ret(t.ref)>>
   ELSE LET atIns == IF ch.at = "sum" THEN <<Prim("add", <<R(0, 1), R(1, 1)>>)>> ELSE <<>>
-           atRef == IF ch.at = "sum" THEN R(0, t.next) ELSE R(0, 1)
+           atRef == IF ch.at = "sum" THEN R(0, t.next) ELSE IF ch.at = "const" THEN K(3) ELSE R(0, 1)
            n2 == t.next + Len(atIns)
        IN t.ins \o atIns \o <<Diff(modeNext, k + 2, atRef, K(1)),
                               Prim(ch.comb, <<t.ref, R(0, n2)>>),
@@ -85,9 +87,12 @@ CanaryInner == <<Mul(R(0, 1), R(0, 1)), Mul(R(0, 2), R(1, 1)), Ret(R(0, 3))>>
 \*   3:         r1 = diff(m3, 4, y (one level up), 1); ret r1
 \*   4 (z):     FaultBody
 \*   5 (z):     CanaryInner
-FaultInner(m, fk, x) ==
+\* ck = "var": the canary's inner point is the enclosing variable; ck = "const": it is the constant 3, so that the inner
+\* differentiation depends on the enclosing variable only through its closure  ( y * d/dz[z z y](3) = 6 y^2 )
+AtOf(ck, ref) == IF ck = "const" THEN K(3) ELSE ref
+FaultInner(m, fk, ck, x) ==
   Single(<< <<Diff(m[1], 2, R(0, 1), K(1)), Ret(R(0, 2))>>,
-            <<Try(3), Diff(m[2], 5, R(0, 1), K(1)), Mul(R(0, 3), R(0, 1)), Ret(R(0, 4))>>,
+            <<Try(3), Diff(m[2], 5, AtOf(ck, R(0, 1)), K(1)), Mul(R(0, 3), R(0, 1)), Ret(R(0, 4))>>,
             <<Diff(m[3], 4, R(1, 1), K(1)), Ret(R(0, 1))>>,
             FaultBody(fk),
             CanaryInner >>, x, fk = "warn")
@@ -98,12 +103,12 @@ FaultInner(m, fk, x) ==
 \*   4 (z):     FaultBody
 \*   5 (y):     r2 = diff(m2, 6, y, 1); r3 = r2 * y; ret r3
 \*   6 (z):     CanaryInner
-FaultTop(m, fk, x) ==
+FaultTop(m, fk, ck, x) ==
   Single(<< <<Try(2), Diff(m[1], 5, R(0, 1), K(1)), Ret(R(0, 3))>>,
             <<Diff(m[2], 3, R(1, 1), K(1)), Ret(R(0, 1))>>,
             <<Diff(m[3], 4, R(0, 1), K(1)), Mul(R(0, 2), R(0, 1)), Ret(R(0, 3))>>,
             FaultBody(fk),
-            <<Diff(m[2], 6, R(0, 1), K(1)), Mul(R(0, 2), R(0, 1)), Ret(R(0, 3))>>,
+            <<Diff(m[2], 6, AtOf(ck, R(0, 1)), K(1)), Mul(R(0, 2), R(0, 1)), Ret(R(0, 3))>>,
             CanaryInner >>, x, fk = "warn")
 \* (c) depth 3: the failure happens two levels below the function that catches it
 \*   main(x):   r2 = diff(m1, 2, x, 1); ret r2
@@ -112,22 +117,22 @@ FaultTop(m, fk, x) ==
 \*   4 (u):     r2 = diff(m3, 5, u, 1); r3 = r2 * u; ret r3
 \*   5 (z):     FaultBody            (its "y" is u)
 \*   6 (z):     CanaryInner
-FaultDeep(m, fk, x) ==
+FaultDeep(m, fk, ck, x) ==
   Single(<< <<Diff(m[1], 2, R(0, 1), K(1)), Ret(R(0, 2))>>,
-            <<Try(3), Diff(m[2], 6, R(0, 1), K(1)), Mul(R(0, 3), R(0, 1)), Ret(R(0, 4))>>,
+            <<Try(3), Diff(m[2], 6, AtOf(ck, R(0, 1)), K(1)), Mul(R(0, 3), R(0, 1)), Ret(R(0, 4))>>,
             <<Diff(m[2], 4, R(1, 1), K(1)), Ret(R(0, 1))>>,
             <<Diff(m[3], 5, R(0, 1), K(1)), Mul(R(0, 2), R(0, 1)), Ret(R(0, 3))>>,
             FaultBody(fk),
             CanaryInner >>, x, fk = "warn")
 \* (d) an uncaught failure ends one top-level call; the next top-level calls are canaries (history independence):
 \*   main(x):   r2 = try(2); r3 = try(2); r4 = diff(m1, 5, x, 1); ret r4      (two failed calls in a row)
-FaultTwice(m, fk, x) ==
-  LET p == FaultTop(m, fk, x) IN
+FaultTwice(m, fk, ck, x) ==
+  LET p == FaultTop(m, fk, ck, x) IN
   [p EXCEPT !.bodies[1] = <<Try(2), Try(2), Diff(m[1], 5, R(0, 1), K(1)), Ret(R(0, 4))>>]
 
 FaultFamily(inputs) ==
-  UNION {{FaultInner(m, fk, x), FaultTop(m, fk, x), FaultDeep(m, fk, x), FaultTwice(m, fk, x)} :
-           m \in [1..3 -> Modes], fk \in FaultKinds, x \in inputs}
+  UNION {{FaultInner(m, fk, ck, x), FaultTop(m, fk, ck, x), FaultDeep(m, fk, ck, x), FaultTwice(m, fk, ck, x)} :
+           m \in [1..3 -> Modes], fk \in FaultKinds, ck \in {"var", "const"}, x \in inputs}
 
 \* ---------------------------------------------------------------- control flow steered by traced values (C03)
 \*   main(x): r2 = diff(m, 2, x, 1); ret r2
@@ -174,4 +179,31 @@ HoProgram(k, m, e, x) ==
          [j \in 1..k |-> IF j < k THEN <<Diff(m[j + 1], j + 2, R(0, 1), K(1)), Ret(R(0, 2))>>
                          ELSE PowIns(e, 2) \o <<Ret(R(0, e))>>], x, FALSE)
 HoFamily(maxk, inputs) == UNION {{HoProgram(k, m, e, x) : m \in [1..k -> Modes], e \in 2..5, x \in inputs} : k \in 2..maxk}
+
+\* ---------------------------------------------------------------- several threads on unrelated data (C20)
+ShiftIns(i, k) == CASE i.op = "diff" -> [i EXCEPT !.b = @ + k]
+                    [] i.op \in {"try", "call"} -> [i EXCEPT !.b = @ + k]
+                    [] i.op = "if" -> [i EXCEPT !.bt = @ + k, !.bf = @ + k]
+                    [] OTHER -> i
+ShiftBodies(bs, k) == [b \in DOMAIN bs |-> [j \in DOMAIN bs[b] |-> ShiftIns(bs[b][j], k)]]
+\* p and q are single-thread programs; the result runs p as thread 1 and q as thread 2
+Par2(p, q) == [bodies |-> p.bodies \o ShiftBodies(q.bodies, Len(p.bodies)),
+               threads |-> <<p.threads[1], [main |-> Len(p.bodies) + 1, input |-> q.threads[1].input]>>,
+               warnerr |-> FALSE]
+Par3(p, q, r) == LET pq == Par2(p, q) IN
+                 [bodies |-> pq.bodies \o ShiftBodies(r.bodies, Len(pq.bodies)),
+                  threads |-> pq.threads \o <<[main |-> Len(pq.bodies) + 1, input |-> r.threads[1].input]>>,
+                  warnerr |-> FALSE]
+\* per-thread programs: flat gradient of y*y; nested  d/dy [ y * d/dz (z z y)(y) ];  second derivative of x^3
+FlatProg(m, x) == Single(<< <<Diff(m, 2, R(0, 1), K(1)), Ret(R(0, 2))>>, <<Mul(R(0, 1), R(0, 1)), Ret(R(0, 2))>> >>, x, FALSE)
+NestedProg(m, ck, x) ==
+  Single(<< <<Diff(m[1], 2, R(0, 1), K(1)), Ret(R(0, 2))>>,
+            <<Diff(m[2], 3, AtOf(ck, R(0, 1)), K(1)), Mul(R(0, 2), R(0, 1)), Ret(R(0, 3))>>,
+            CanaryInner >>, x, FALSE)
+ThreadProgs == {FlatProg(m, 3) : m \in Modes} \cup {NestedProg(m, ck, 2) : m \in [1..2 -> Modes], ck \in {"var", "const"}}
+               \cup {HoProgram(2, m, 3, 2) : m \in [1..2 -> Modes]}
+\* at least one nested participant
+ThreadFamily2 == {Par2(p, q) : p \in {NestedProg(m, ck, 2) : m \in [1..2 -> Modes], ck \in {"var", "const"}}, q \in ThreadProgs}
+ThreadFamily2Small == {Par2(NestedProg(m, ck, 2), FlatProg(mm, 3)) : m \in {<<"vjp", "vjp">>, <<"jvp", "vjp">>}, ck \in {"var", "const"}, mm \in Modes}
+ThreadFamily3 == {Par3(NestedProg(<<"vjp", "vjp">>, ck, 2), FlatProg(m, 3), HoProgram(2, <<m, "vjp">>, 3, 2)) : ck \in {"var", "const"}, m \in Modes}
 =============================================================================
